@@ -5,7 +5,7 @@
    the value / the memory the model predicts -- every load and store checked inside the array,
    no signed overflow, no fuel exhausted. *)
 From Coq Require Import List ZArith NArith Bool Lia.
-From NV Require Import Bytes RenDefs DirDefs CLite CLiteProps GenCFuncs TrUc.
+From NV Require Import Bytes RenDefs DirDefs CLite CLiteProps GenCFuncs CLiteTac.
 Import ListNotations.
 Local Open Scope Z_scope.
 
